@@ -33,6 +33,8 @@ static int key_seen(const char *key) {
 static const char *g_mode = "?";
 static unsigned long long g_seed, g_shard, g_nshards;
 static char g_cmd[200];
+/* distinct-case fingerprints: at most 120000 per process so that the merged set stays small (the count is a lower bound) */
+static void FP(uint64_t x) { static unsigned n; if (n < 120000) { n++; vh_fp(x); } else { static int noted; if (!noted) { noted = 1; vh_count("fingerprint_cap_reached_in_processes", 1); } } }
 #define CASE(fmt, ...) vh_case("cmd=[%s] " fmt, g_cmd, __VA_ARGS__)
 
 /* ------------------------------------------------------------------ reference: digests */
@@ -79,6 +81,7 @@ typedef struct {
 	unsigned char *sib; size_t sib_len;   /* exactly the bytes the sibling contributes to the step hash */
 	int noncanon;                  /* metadata payload contains a child with a non-minimal (16-bit) header */
 	unsigned char *alt; size_t alt_len;   /* noncanon only: the same payload with minimal child headers */
+	int by_setters; char *cid, *mid; int has_seq, has_rt; uint64_t seq, rt;   /* metadata field values */
 } RLink;
 
 enum { RS_OK = 0, RS_REJECT = 1, RS_UNDECIDED = 2 };
@@ -198,8 +201,8 @@ static void gen_imprint(unsigned char *imp, size_t *len, int alg) {
 	for (i = 0; i < dl; i++) imp[1 + i] = (unsigned char)vh_rand();
 	*len = (size_t)dl + 1;
 }
-static void link_clear(RLink *l) { free(l->sib); free(l->alt); memset(l, 0, sizeof(*l)); }
-static void links_free(RLink *l, size_t n) { size_t i; for (i = 0; i < n; i++) { free(l[i].sib); free(l[i].alt); } free(l); }
+static void link_clear(RLink *l) { free(l->sib); free(l->alt); free(l->cid); free(l->mid); memset(l, 0, sizeof(*l)); }
+static void links_free(RLink *l, size_t n) { size_t i; for (i = 0; i < n; i++) { free(l[i].sib); free(l[i].alt); free(l[i].cid); free(l[i].mid); } free(l); }
 static void gen_sib_imprint(RLink *l, int alg) {
 	unsigned char imp[80]; size_t n;
 	gen_imprint(imp, &n, alg);
@@ -211,38 +214,31 @@ static void gen_sib_legacy(RLink *l) {
 	l->sib[0] = 0x03; l->sib[1] = 0x00; l->sib[2] = (unsigned char)nl;
 	for (i = 0; i < nl; i++) l->sib[3 + i] = (unsigned char)('a' + vh_below(26));
 }
-static void put_str(Buf *b, unsigned tag, size_t n, int force16) {
-	unsigned char *s = malloc(n + 1); size_t i;
-	for (i = 0; i < n; i++) s[i] = (unsigned char)('A' + vh_below(26));
-	s[n] = 0;
-	tlv_put(b, tag, 0, s, n + 1, force16);
-	free(s);
-}
-/* metadata payload: [padding 7E] clientId [machineId] [sequenceNr] [requestTime]; sib = the payload bytes */
+static char *rand_str(size_t n) { char *s = malloc(n + 1); size_t i; for (i = 0; i < n; i++) s[i] = (char)('A' + vh_below(26)); s[n] = 0; return s; }
+/* metadata payload: [padding 7E] clientId [machineId] [sequenceNr] [requestTime]; sib = the payload bytes.
+ * by_setters: the element is built with KSI_MetaDataElement_new + setters from the same field values (no padding) and the
+ * expected bytes are the minimal TLV encoding of the fields in tag order. */
 static void gen_sib_meta(RLink *l, int allow_noncanon, int allow_long) {
-	Buf b = {0}, altb = {0}; size_t altbase = 0; int pad = (int)vh_below(3); size_t cl = 1 + (size_t)vh_below(20);
+	Buf b = {0}, a = {0}; int pad = (int)vh_below(3); size_t cl = 1 + (size_t)vh_below(20), ml = 1 + (size_t)vh_below(12);
 	static const unsigned char p1[] = {0x01}, p2[] = {0x01, 0x01};
-	l->noncanon = allow_noncanon && vh_below(8) == 0;
+	l->by_setters = vh_below(5) == 0;
+	l->noncanon = !l->by_setters && allow_noncanon && vh_below(8) == 0;
 	if (allow_long && vh_below(10) == 0) cl = 240 + (size_t)vh_below(400);
-	if (pad == 1) tlv_put(&b, 0x1e, FL_N | FL_F, p1, 1, 0);
-	if (pad == 2) tlv_put(&b, 0x1e, FL_N | FL_F, p2, 2, 0);
-	{ size_t before = b.n; put_str(&b, 0x01, cl, l->noncanon);
-	  if (l->noncanon) {   /* alt = same payload, client id with the minimal header */
-		Buf a = {0}; buf_put(&a, b.p, before); tlv_put(&a, 0x01, 0, b.p + before + 4, cl + 1, 0);
-		if (a.n == b.n) l->noncanon = 0;   /* long string: the 16-bit header is the minimal one */
-		altb = a; } }
-	if (vh_below(2)) put_str(&b, 0x02, 1 + (size_t)vh_below(12), 0);
-	if (vh_below(2)) tlv_put_int(&b, 0x03, vh_rand() >> vh_below(64));
-	if (vh_below(2)) tlv_put_int(&b, 0x04, vh_rand() >> vh_below(64));
-	(void)altbase;
+	if (cl + 1 > 255) l->noncanon = 0;      /* the 16-bit header is then the minimal one */
+	if (l->by_setters) pad = 0;
+	l->cid = rand_str(cl);
+	if (vh_below(2)) l->mid = rand_str(ml);
+	l->has_seq = (int)vh_below(2); l->seq = vh_rand() >> vh_below(64); if (vh_below(6) == 0) l->seq = 0;
+	l->has_rt = (int)vh_below(2); l->rt = vh_rand() >> vh_below(64);
+	if (pad == 1) { tlv_put(&b, 0x1e, FL_N | FL_F, p1, 1, 0); tlv_put(&a, 0x1e, FL_N | FL_F, p1, 1, 0); }
+	if (pad == 2) { tlv_put(&b, 0x1e, FL_N | FL_F, p2, 2, 0); tlv_put(&a, 0x1e, FL_N | FL_F, p2, 2, 0); }
+	tlv_put(&b, 0x01, 0, (unsigned char *)l->cid, cl + 1, l->noncanon); tlv_put(&a, 0x01, 0, (unsigned char *)l->cid, cl + 1, 0);
+	if (l->mid) { tlv_put(&b, 0x02, 0, (unsigned char *)l->mid, ml + 1, 0); tlv_put(&a, 0x02, 0, (unsigned char *)l->mid, ml + 1, 0); }
+	if (l->has_seq) { tlv_put_int(&b, 0x03, l->seq); tlv_put_int(&a, 0x03, l->seq); }
+	if (l->has_rt) { tlv_put_int(&b, 0x04, l->rt); tlv_put_int(&a, 0x04, l->rt); }
 	l->kind = SIB_META; l->sib = malloc(b.n); memcpy(l->sib, b.p, b.n); l->sib_len = b.n;
-	if (l->noncanon) {   /* append what followed the client id */
-		size_t tail_from = altb.n + 2;   /* the 16-bit header is two bytes longer */
-		buf_put(&altb, b.p + tail_from, b.n - tail_from);
-		l->alt = malloc(altb.n); memcpy(l->alt, altb.p, altb.n); l->alt_len = altb.n;
-	}
-	buf_free(&altb);
-	buf_free(&b);
+	if (l->noncanon) { l->alt = malloc(a.n); memcpy(l->alt, a.p, a.n); l->alt_len = a.n; }   /* same payload, minimal child headers */
+	buf_free(&a); buf_free(&b);
 }
 static void gen_sibling(RLink *l, int kind, int allow_noncanon, int allow_long) {
 	if (kind == SIB_LEGACY) gen_sib_legacy(l);
@@ -290,8 +286,22 @@ static KSI_DataHash *lib_hash(const unsigned char *imp, size_t n) {
 	return h;
 }
 /* metadata element through TLV 04 <payload>; NULL + *rejected=1 when the library's metadata parser refuses the payload */
+static KSI_MetaDataElement *lib_meta_by_setters(const RLink *l) {
+	KSI_MetaDataElement *md = NULL; KSI_Utf8String *u = NULL; KSI_Integer *n = NULL;
+	TRY(KSI_MetaDataElement_new(ctx, &md));
+	TRY(KSI_Utf8String_new(ctx, l->cid, strlen(l->cid) + 1, &u)); TRY(KSI_MetaDataElement_setClientId(md, u)); u = NULL;
+	if (l->mid) { TRY(KSI_Utf8String_new(ctx, l->mid, strlen(l->mid) + 1, &u)); TRY(KSI_MetaDataElement_setMachineId(md, u)); u = NULL; }
+	if (l->has_seq) { TRY(KSI_Integer_new(ctx, l->seq, &n)); TRY(KSI_MetaDataElement_setSequenceNr(md, n)); n = NULL; }
+	if (l->has_rt) { TRY(KSI_Integer_new(ctx, l->rt, &n)); TRY(KSI_MetaDataElement_setRequestTimeInMicros(md, n)); n = NULL; }
+	vh_count("metadata_built_by_setters", 1);
+	return md;
+fail:
+	KSI_Utf8String_free(u); KSI_Integer_free(n); KSI_MetaDataElement_free(md);
+	return NULL;
+}
 static KSI_MetaDataElement *lib_meta(const RLink *l, int *rejected) {
 	Buf b = {0}; KSI_TLV *tlv = NULL; KSI_MetaDataElement *md = NULL; unsigned char *e; int res;
+	if (l->by_setters) return lib_meta_by_setters(l);
 	tlv_put(&b, 0x04, 0, l->sib, l->sib_len, 0);
 	e = vh_exact(b.p, b.n);
 	res = KSI_TLV_parseBlob(ctx, e, b.n, &tlv);
@@ -376,7 +386,7 @@ static void first_bad_link(const Case *c, char *out, size_t outsz) {
 		if (!lst || !in) { KSI_HashChainLinkList_free(lst); KSI_DataHash_free(in); return; }
 		res = KSI_HashChain_aggregate(ctx, lst, in, c->start, (KSI_HashAlgorithm)c->alg, &lvl, &root);
 		if (res != KSI_OK || !root || KSI_DataHash_getImprint(root, &p, &pl) != KSI_OK || pl != r.imp_len || memcmp(p, r.imp, pl) || lvl != r.level) {
-			snprintf(out, outsz, "%s-%s%s", c->l[k - 1].isLeft ? "left" : "right", kind_name(c->l[k - 1].kind), c->l[k - 1].noncanon ? "-noncanon" : "");
+			snprintf(out, outsz, "%s-%s%s", c->l[k - 1].isLeft ? "left" : "right", kind_name(c->l[k - 1].kind), c->l[k - 1].noncanon ? "-noncanon" : c->l[k - 1].kind == SIB_META && c->l[k - 1].by_setters ? "-by-setters" : "");
 			KSI_DataHash_free(root); KSI_DataHash_free(in); KSI_HashChainLinkList_free(lst);
 			return;
 		}
@@ -385,7 +395,7 @@ static void first_bad_link(const Case *c, char *out, size_t outsz) {
 }
 static void report(const Case *c, const char *cond, const char *wclass, const char *fmt, ...) {
 	char key[200], what[1500]; char *rep; va_list va;
-	snprintf(key, sizeof key, "%s:%s:%s", c->entry, cond, wclass);
+	snprintf(key, sizeof key, "%.*s:%s:%s", (int)strcspn(c->entry, "("), c->entry, cond, wclass);
 	va_start(va, fmt); vsnprintf(what, sizeof what, fmt, va); va_end(va);
 	rep = describe_case(c->entry, c->l, c->n, c->in, c->in_len, c->start, c->alg);
 	VIOL(key, rep, "%s%s%s | %.900s", what, c->note ? " | " : "", c->note ? c->note : "", rep);
@@ -450,17 +460,19 @@ static uint64_t chain_fp(const RLink *l, size_t n, int start, long long alg, uns
 }
 
 /* direct list entry + chain object entry (fresh object per start level) for each given start level */
-static void run_both_entries(const RLink *l, size_t n, const unsigned char *in, size_t in_len, long long alg, const int *starts, int nstarts) {
-	int mr = 0, s; KSI_HashChainLinkList *lst = lib_list(l, n, 0, &mr); KSI_DataHash *inh = lib_hash(in, in_len);
-	if (!lst || !inh) { if (mr) vh_count("meta_rejected_by_parser", 1); KSI_HashChainLinkList_free(lst); KSI_DataHash_free(inh); return; }
+static int run_both_entries(const RLink *l, size_t n, const unsigned char *in, size_t in_len, long long alg, const int *starts, int nstarts) {
+	int mr = 0, s, all_ok = 1; KSI_HashChainLinkList *lst = lib_list(l, n, 0, &mr); KSI_DataHash *inh = lib_hash(in, in_len);
+	if (!lst || !inh) { if (mr) vh_count("meta_rejected_by_parser", 1); KSI_HashChainLinkList_free(lst); KSI_DataHash_free(inh); return 1; }
 	for (s = 0; s < nstarts; s++) {
 		RRes ref; Case c = {"HashChain_aggregate", l, n, in, in_len, starts[s], alg, NULL};
 		int lvl = -12345, res; KSI_DataHash *root = NULL; KSI_AggregationHashChain *obj;
 		ref_aggr(l, n, in, in_len, starts[s], alg, &ref);
+		int direct_ok;
 		res = KSI_HashChain_aggregate(ctx, lst, inh, starts[s], (KSI_HashAlgorithm)alg, &lvl, &root);
-		cmp_aggr(&c, res, res == KSI_OK, lvl, root, &ref);
-		vh_fp(chain_fp(l, n, starts[s], alg, 0));
+		direct_ok = cmp_aggr(&c, res, res == KSI_OK, lvl, root, &ref);
+		FP(chain_fp(l, n, starts[s], alg, 0));
 		KSI_DataHash_free(root); root = NULL; lvl = -12345;
+		if (!direct_ok) { all_ok = 0; vh_count("other_entries_skipped_after_direct_entry_disagreed", 1); continue; }   /* one defect, one key */
 		obj = lib_aggr_obj(lst, in, in_len, (uint64_t)alg);
 		if (obj) {
 			c.entry = "AggregationHashChain_aggregate";
@@ -472,6 +484,7 @@ static void run_both_entries(const RLink *l, size_t n, const unsigned char *in, 
 		if (ref.status == RS_OK) vh_count("ref_valid_chains", 1); else if (ref.status == RS_REJECT) vh_count("ref_must_reject_chains", 1);
 	}
 	KSI_HashChainLinkList_free(lst); KSI_DataHash_free(inh);
+	return all_ok;
 }
 
 /* siblings for the exhaustive part: fixed by position/index, independent of the run seed */
@@ -579,7 +592,7 @@ static void aggr_one_random(uint64_t caseno) {
 	{ RRes r; ref_aggr(l, n, in, in_len, start, alg, &r); if (r.status == RS_OK && n > 64) vh_count("valid_chains_longer_than_64", 1); if (n > 255) vh_count("chains_longer_than_255", 1); }
 
 	/* (a)+(b) setter-built list and object */
-	run_both_entries(l, n, in, in_len, alg, starts, 1);
+	if (!run_both_entries(l, n, in, in_len, alg, starts, 1)) { links_free(l, n); return; }
 
 	/* (c) the same chain parsed from reference-built TLV bytes */
 	{
@@ -589,10 +602,12 @@ static void aggr_one_random(uint64_t caseno) {
 			RRes ref; Case c = {"AggregationHashChain_aggregate(parsed)", l, n, in, in_len, start, alg, NULL}; int lvl = -12345, res; KSI_DataHash *root = NULL;
 			KSI_HashChainLinkList *lst = NULL; KSI_DataHash *inh = NULL; KSI_HashChainLinkIdentityList *ids = NULL;
 			ref_aggr(l, n, in, in_len, start, alg, &ref);
+			int ok1;
 			res = KSI_AggregationHashChain_aggregate(obj, start, &lvl, &root);
-			cmp_aggr(&c, res, res == KSI_OK, lvl, root, &ref);
+			ok1 = cmp_aggr(&c, res, res == KSI_OK, lvl, root, &ref);
 			KSI_DataHash_free(root); root = NULL;
 			vh_count("tlv_chains_parsed", 1);
+			if (!ok1) { KSI_AggregationHashChain_free(obj); links_free(l, n); return; }
 			/* the parsed link list through the direct entry, before and after the identity getters walked the metadata */
 			KSI_AggregationHashChain_getChain(obj, &lst); KSI_AggregationHashChain_getInputHash(obj, &inh);
 			c.entry = "HashChain_aggregate(parsed)";
@@ -653,7 +668,7 @@ static void aggr_list_random(uint64_t caseno) {
 		res = KSI_AggregationHashChainList_aggregate(lst, ctx, start, &root);
 		/* a root mismatch here is located with the flat chain only when a single hash id is used; cmp_aggr's locator is best effort */
 		cmp_aggr(&c, res, 0, 0, root, &rr);
-		vh_fp(vh_mix(chain_fp(flat, tot, start, algs[0], 3), nc));
+		FP(vh_mix(chain_fp(flat, tot, start, algs[0], 3), nc));
 		vh_count("chain_lists", 1);
 		if (expect == RS_OK) vh_count("chain_lists_valid", 1);
 		KSI_DataHash_free(root);
@@ -727,7 +742,7 @@ static void mode_memo(uint64_t ncases, int withfail, long cache) {
 			res = KSI_AggregationHashChain_aggregate(obj, start, &lvl, &root);
 			c.entry = failed_before ? "AggregationHashChain_aggregate:memo-after-failed-call" : (prev == start ? "AggregationHashChain_aggregate:memo-hit" : "AggregationHashChain_aggregate:memo-other-level");
 			cmp_aggr(&c, res, res == KSI_OK, lvl, root, &ref);
-			vh_fp(vh_mix(chain_fp(l, n, start, alg, 4), vh_hash_bytes(hist, strlen(hist))));
+			FP(vh_mix(chain_fp(l, n, start, alg, 4), vh_hash_bytes(hist, strlen(hist))));
 			if (res == KSI_OK) vh_count(failed_before ? "memo_ok_after_failed_call" : prev == start ? "memo_hits" : "memo_recomputes", 1);
 			else { vh_count("memo_failed_calls", 1); failed_before = 1; }
 			KSI_DataHash_free(root);
@@ -781,13 +796,14 @@ static int cal_lazy(const unsigned char *isLeft, size_t n, uint64_t p, uint64_t 
 }
 
 static KSI_CalendarHashChain *cal_obj(const unsigned char *isLeft, size_t n, KSI_HashChainLinkList **lst_out) {
-	KSI_CalendarHashChain *c = NULL; KSI_HashChainLinkList *lst = NULL; KSI_HashChainLink *k = NULL; size_t i; static unsigned char imp[33] = {1};
+	KSI_CalendarHashChain *c = NULL; KSI_HashChainLinkList *lst = NULL; KSI_HashChainLink *k = NULL; size_t i; static unsigned char imp[33] = {1}; static KSI_DataHash *shared;
 	TRY(KSI_CalendarHashChain_new(ctx, &c));
 	TRY(KSI_HashChainLinkList_new(&lst));
 	for (i = 0; i < n; i++) {
 		KSI_DataHash *h;
 		TRY(KSI_HashChainLink_new(ctx, &k)); TRY(KSI_HashChainLink_setIsLeft(k, isLeft[i]));
-		h = lib_hash(imp, 33); if (!h) goto fail;
+		if (!shared) shared = lib_hash(imp, 33);    /* one imprint object shared by all links (the time calculation ignores it) */
+		h = KSI_DataHash_ref(shared); if (!h) goto fail;
 		TRY(KSI_HashChainLink_setImprint(k, h));
 		TRY(KSI_HashChainLinkList_append(lst, k)); k = NULL;
 	}
@@ -846,7 +862,7 @@ static void mode_calx(int Lc, uint64_t P) {
 				if (cal_lazy(dl, (size_t)n, p, &t2) != valid || (valid && t2 != t)) selfcheck_bad++;
 				KSI_CalendarHashChain_setPublicationTime(c, pi);
 				cal_time_check(c, dl, (size_t)n, p, valid, t, "exhaustive");
-				if (valid) vh_fp(vh_mix(vh_mix(0xCA1, p), (uint64_t)n << 32 | bits));
+				if (valid) FP(vh_mix(vh_mix(0xCA1, p), (uint64_t)n << 32 | bits));
 			}
 		}
 		vh_count("calx_pubtimes", 1); vh_count("calx_tree_leaves", cal_leaves);
@@ -896,7 +912,7 @@ static void calr_time_case(uint64_t caseno) {
 	if (!c || KSI_Integer_new(ctx, p, &pi) != KSI_OK) { KSI_CalendarHashChain_free(c); return; }
 	KSI_CalendarHashChain_setPublicationTime(c, pi);
 	cal_time_check(c, dl, n, p, valid, t2, origin);
-	vh_fp(vh_mix(vh_mix(0xCA2, p), vh_hash_bytes(dl, n)));
+	FP(vh_mix(vh_mix(0xCA2, p), vh_hash_bytes(dl, n)));
 	vh_count(p >> 63 ? "calr_pubtime_top_bit" : p >> 32 ? "calr_pubtime_33_63_bit" : "calr_pubtime_le_32_bit", 1);
 	if (valid) vh_count("calr_valid_shapes", 1); else vh_count("calr_impossible_shapes", 1);
 	KSI_CalendarHashChain_free(c);
@@ -904,7 +920,7 @@ static void calr_time_case(uint64_t caseno) {
 
 static void cal_report(const char *entry, const char *cond, const char *cls, const RLink *l, size_t n, const unsigned char *in, size_t in_len, const char *fmt, ...) {
 	char key[200], what[1200]; char *rep; va_list va;
-	snprintf(key, sizeof key, "%s:%s:%s", entry, cond, cls);
+	snprintf(key, sizeof key, "%.*s:%s:%s", (int)strcspn(entry, "("), entry, cond, cls);
 	va_start(va, fmt); vsnprintf(what, sizeof what, fmt, va); va_end(va);
 	rep = describe_case(entry, l, n, in, in_len, 0xff, -1);
 	VIOL(key, rep, "%s | %.900s", what, rep);
@@ -985,7 +1001,7 @@ static void calr_hash_case(uint64_t caseno, int allow_exotic) {
 		KSI_CalendarHashChain_free(c);
 		vh_exact_free(e, b.n); buf_free(&b);
 	}
-	vh_fp(vh_mix(chain_fp(l, n, 0xff, in[0], 5), vh_hash_bytes(in, in_len)));
+	FP(vh_mix(chain_fp(l, n, 0xff, in[0], 5), vh_hash_bytes(in, in_len)));
 	links_free(l, n);
 }
 static void mode_calr(uint64_t ncases, int exotic) {
@@ -1003,8 +1019,8 @@ static void shape_check(KSI_AggregationHashChain *c, KSI_HashChainLinkList *lst,
 	res = KSI_AggregationHashChain_calculateShape(c, &out);
 	if (n == 0 && res != KSI_OK) { vh_count("shape_empty_rejected", 1); return; }
 	if (n <= 63 && res == KSI_OK && out == ref) { static int shown; vh_count("shape_equal", 1);
-		if (!shown && g_shard == 0 && n >= 10) { char dd[100]; size_t j; for (j = 0; j < n && j < 99; j++) dd[j] = isLeft[j] ? 'L' : 'R'; dd[j] = 0; shown = 1; vh_sample("shape: links(leaf side first)=%s -> index 0x%llx (library == reference)", dd, (unsigned long long)ref); } vh_fp(vh_mix(0x5a9e, ref) ^ n); return; }
-	if (n >= 64 && res != KSI_OK) { vh_count("shape_too_long_rejected", 1); vh_fp(vh_mix(0x5a9f, vh_hash_bytes(isLeft, n))); return; }
+		if (!shown && g_shard == 0 && n >= 10) { char dd[100]; size_t j; for (j = 0; j < n && j < 99; j++) dd[j] = isLeft[j] ? 'L' : 'R'; dd[j] = 0; shown = 1; vh_sample("shape: links(leaf side first)=%s -> index 0x%llx (library == reference)", dd, (unsigned long long)ref); } FP(vh_mix(0x5a9e, ref) ^ n); return; }
+	if (n >= 64 && res != KSI_OK) { vh_count("shape_too_long_rejected", 1); FP(vh_mix(0x5a9f, vh_hash_bytes(isLeft, n))); return; }
 	for (i = 0; i < n && i < sizeof dirs - 1; i++) dirs[i] = isLeft[i] ? 'L' : 'R';
 	dirs[i] = 0;
 	if (n <= 8) snprintf(lc, sizeof lc, "len-%zu", n); else if (n <= 62) snprintf(lc, sizeof lc, "len-9-62"); else if (n <= 65) snprintf(lc, sizeof lc, "len-%zu", n); else snprintf(lc, sizeof lc, "len-ge-66");
